@@ -584,7 +584,10 @@ def lab_points(k):
     for base in (BASE_POINT, mc_base_point()):
         for delta in ({'ns': 'N.M', 'place': 'shadow', 'spell': 'full'},          # namespace shadowing
                       {'extscope': 'split', 'nreq': 2},                            # same-named externs per interface
-                      {'extscope': 'split', 'nprov': 2, 'nreq': 2, 'ns': 'N.M'}):
+                      {'extscope': 'split', 'nprov': 2, 'nreq': 2, 'ns': 'N.M'},
+                      {'mc': 'p1:0', 'nprov': 2},                                  # multi-client port named 'p2' next to 'p'
+                      {'mc': 'p1:0', 'nprov': 3, 'nreq': 3, 'names': 'caps'},       # ... in the middle of three
+                      {'nprov': 3, 'nreq': 3, 'rsem': 'lastmts'}):
             pt = dict(base)
             pt.update(delta)
             if valid_point(pt):
